@@ -331,3 +331,9 @@ def run(M, rep, tier, only=None):
                     stores = e
         rep.check(R6, key, stores is None, "%s stores to self.%s: container state outside HDF5" % (
             key, stores.key.t[1] if stores else ""), site=stores.site if stores else None)
+
+    # ---- R10 (shared with C04.R3): removing a role link must not take the entity itself out of its parent
+    R10 = rep.rule("C02.R10", "removing an optional link (metadata, dimension link, ...) never removes the entity that carried it", floor=9,
+                   technique="keyword argument of every unlink on the entity's own group, all paths (shared with C04.R3)")
+    from . import c04
+    c04.role_link_rule(M, rep, R10, ctx)
